@@ -15,7 +15,7 @@ THEOREMS = ["constants_consistent", "sha256_is_256_bit", "convert_is_identity", 
             "sort_sorted", "sort_perm", "sort_prefix", "sort_returns_n_nearest", "sort_by_address_is_by_key", "sort_error_iff",
             "returns_requested_number_or_error_refuted", "returns_requested_number_or_error_outside_known",
             "known_short_list_exact", "close_peers_client_spec", "close_peers_node_spec", "store_farthest_invariant",
-            "store_admission_exact", "store_history_agreement_sound", "closest_k_spec",
+            "store_admission_exact", "store_admits_not_farther", "store_history_agreement_sound", "closest_k_spec",
             "closest_k_insertion_order_irrelevant", "range_filter_exact", "fetcher_range_filter_exact",
             "fetcher_order_closest_first", "fetch_schedule_closest_first", "fetch_acceptor_is_spec",
             "fetch_history_agreement_sound", "farthest_on_full_exact", "fullness_bound_invariant", "store_distance_index_exact", "closest_peers_spec",
@@ -25,7 +25,8 @@ RULE = ("addresses of all six kinds (peer bytes incl. non-PeerId byte strings, c
         "PeerIds incl. duplicates, 0-40 per case with boundary sizes 0,1,4,5,6; requested counts 0..|peers|+2; "
         "get_closest_k_value_local_peers over real routing tables of 0-60 peers inserted in random order (k-buckets shared by "
         "many, more than K_VALUE-1 peers); admission / eviction histories of a real NodeRecordStore with capacity 2-8: settled "
-        "puts of new keys, removes, restarts while partly filled and while full, incl. the shape far records / restart / fill "
+        "puts of new keys, re-puts of the current farthest record and of other held records (same bytes: read-cache early "
+        "return; different bytes) at and below capacity, removes, restarts while partly filled and while full, incl. the shape far records / restart / fill "
         "up with nearer ones / a record between the groups / a record beyond; "
         "closest-peers lookups of a client and of a node through a real Network handle whose swarm side answers the query "
         "with 0..20 peers with / without the asker's own id (once or twice, any position), sizes CLOSE_GROUP_SIZE-2..+4, "
@@ -319,19 +320,27 @@ def gen_store_hist(rng, peers, i):
     mx = rng.choice([2, 3, 4, 4, 6, 8])
     pool = [rb(rng, rng.choice([32, 32, 32, 8, 50])).hex() for _ in range(2 * mx + 8)]
     by = sorted(set(pool), key=dist)
-    held, steps = [], []
+    held, steps, vals, cached = [], [], {}, set()
 
-    def put(k):
+    def put(k, same=None):
+        """follows what the store does, so that later steps are planned on the real contents"""
         if k in held:
-            return
-        steps.append({"s": "put", "key": k, "val": rng.randrange(1, 200)})
-        if len(held) < mx:
-            held.append(k)
+            v = vals[k] if same else (vals[k] % 200) + 1 if same is False else rng.choice([vals[k], (vals[k] % 200) + 1])
         else:
+            v = rng.randrange(1, 200)
+        steps.append({"s": "put", "key": k, "val": v})
+        if k in held and k in cached and v == vals[k]:
+            return                                   # same bytes still in the read cache: nothing happens
+        if len(held) >= mx:
             far = max(held, key=dist)
-            if dist(k) <= dist(far):
-                held.remove(far)
-                held.append(k)
+            if dist(k) > dist(far):
+                return                               # refused
+            held.remove(far)
+            cached.discard(far)
+        if k not in held:
+            held.append(k)
+        vals[k] = v
+        cached.add(k)
 
     if i % 2 == 0:
         # some far records without filling up, RESTART, fill up with nearer ones, then one between the groups,
@@ -341,6 +350,7 @@ def gen_store_hist(rng, peers, i):
         for k in far_keys:
             put(k)
         steps.append({"s": "restart"})
+        cached.clear()
         for k in by[:mx - nfar]:
             put(k)
         mid = [k for k in by if k not in held and dist(by[mx - nfar - 1]) < dist(k) < max(dist(x) for x in far_keys)]
@@ -351,15 +361,22 @@ def gen_store_hist(rng, peers, i):
             put(rng.choice(mid))
     for _ in range(rng.choice([3, 6, 10, 16])):
         r = rng.random()
-        if r < 0.6:
-            put(rng.choice(by))
-        elif r < 0.8 and held:
+        if r < 0.45:
+            put(rng.choice([k for k in by if k not in held] or by))
+        elif r < 0.6 and held:
+            # the equality case: the current farthest record is put again (same / different bytes), mostly at capacity
+            put(max(held, key=dist), same=rng.choice([True, False, False]))
+        elif r < 0.68 and held:
+            put(rng.choice(held), same=rng.choice([True, False]))
+        elif r < 0.85 and held:
             k = rng.choice(held) if rng.random() < 0.8 else rng.choice(by)
             steps.append({"s": "remove", "key": k})
             if k in held:
                 held.remove(k)
+                cached.discard(k)
         else:
             steps.append({"s": "restart"})
+            cached.clear()
     return {"op": "store_hist", "n": i, "self": me, "max": mx, "steps": steps}
 
 
@@ -653,10 +670,28 @@ def oracle(c, o):
         mx = c["max"]
         for i, (st, sp) in enumerate(zip(c["steps"], o["steps"])):
             pre, post = sp["pre_held"], sp["held"]
-            if sp["res"] not in (0, 1):
+            if sp["res"] not in (0, 1, 2) or (sp["res"] == 2 and st["s"] != "put"):
                 v.append(("harness", "step %d: unexpected outcome %r" % (i, sp["res"])))
                 continue
-            if st["s"] == "put" and st["key"] not in pre:
+            if st["s"] == "put" and st["key"] in pre:
+                # a held record put again (an update, or the same bytes): it is not farther than the farthest held
+                # record -- at most AT its distance, when it is the farthest itself -- so it is never refused
+                k = st["key"]
+                far = max(pre, key=d)
+                if sp["res"] == 1:
+                    v.append(("store-admission", "step %d: store refused (%d/%d held) a record it already holds, at distance %d; the "
+                              "farthest held record is at %d%s" % (i, len(pre), mx, d(k), d(far),
+                                                                  " (it IS the farthest record)" if k == far else "")))
+                elif sp["res"] == 2 and sorted(post) != sorted(pre):
+                    v.append(("store-state", "step %d: cached re-put changed the store" % i))
+                elif sp["res"] == 0 and (len(pre) < mx or k == far) and sorted(post) != sorted(pre):
+                    v.append(("store-eviction", "step %d: re-put of %s changed the held set %d -> %d" % (
+                        i, "the farthest record" if k == far else "a held record below capacity", len(pre), len(post))))
+                elif k not in post:
+                    v.append(("store-state", "step %d: re-put record is no longer held" % i))
+            elif st["s"] == "put" and sp["res"] == 2:
+                v.append(("harness", "step %d: early return for a record that is not held" % i))
+            elif st["s"] == "put":
                 k = st["key"]
                 if len(pre) < mx:
                     want_res, want = 0, sorted(pre + [k])
@@ -876,9 +911,9 @@ def model_term(c, o):
             return "None" if f is None else "(Some (%s, %s))" % (ck(f[0]), cN(int(f[1])))
         recs = []
         for st, sp in zip(c["steps"], o["steps"]):
-            if sp["res"] not in (0, 1):
+            if sp["res"] not in (0, 1, 2):
                 return "false"
-            cst = {"put": "(SPut %s)", "remove": "(SRemove %s)"}.get(st["s"], "SRestart")
+            cst = {"put": "(SPutSame %s)" if sp["res"] == 2 else "(SPut %s)", "remove": "(SRemove %s)"}.get(st["s"], "SRestart")
             if "%s" in cst:
                 cst = cst % ck(st["key"])
             recs.append("(%s, (%s, %s), %s, (%s, %s))" % (
